@@ -579,10 +579,14 @@ class t2listing(object):
             tname = 'element'
             nelt_tables = 0
         else: tname = last_tablename
+        # file is positioned within the rows of the last table read, if any:
+        inside = last_tablename is not None
         while tname != tablename:
             if tname == 'primary': keyword='_____'
             else: keyword = '@@@@@'
-            self.skipto(keyword,0)
+            # the rule ending the primary table also starts the next table:
+            if not (inside and tname == 'primary'): self.skipto(keyword,0)
+            inside = False
             tname = self.next_table_TOUGHplus()
             if tname == 'element':
                 nelt_tables += 1
@@ -1042,6 +1046,10 @@ class t2listing(object):
             return None # no valid specifications
         hist = [[] for s in selection]
         self.rewind()
+        # tables present, in the order they appear in the file:
+        file_tables = [tname for tname in
+                       ['element', 'element1', 'connection',
+                        'primary', 'element2', 'generation'] if tname in self._table]
 
         for ipos, pos in enumerate(self._pos):
             self._file.seek(pos)
@@ -1054,8 +1062,12 @@ class t2listing(object):
                     if is_short: tablename = tname[0].upper() + 'SHORT'
                     else: tablename = tname
                     if not (is_short and not (tablename in self.short_types)):
+                        if last_tname is not None:
+                            # number of (TOUGH+) element tables up to the last one read:
+                            ilast = file_tables.index(last_tname)
+                            nelt_tables = len([t for t in file_tables[: ilast + 1]
+                                               if t.startswith('element')]) - 1
                         self.skip_to_table(tname, last_tname, nelt_tables)
-                        if tname.startswith('element'): nelt_tables += 1
                         cols = self._table[tname].column_name
                         ncols = self._table[tname].num_columns
                         expected_floats = self.table_expected_floats(tname, cols)
